@@ -8,7 +8,7 @@
    - the `err` results are never set by any of these functions (only Eval's JSON parse can fail), so
      they do not appear.
    - every index expression args[i] and every unchecked type assertion is an explicit Panic with
-     the line number of eval.go.
+     the line number of eval.go (of the repaired tree).
    Libraries (strconv.ParseFloat, regexp, time.Parse, base64, oj.ParseString, mxj, and the redact
    machinery owned by another family) are section variables. *)
 Require Import V.Base.Prelude V.Kfl.Num V.Kfl.Json V.Kfl.KflAst V.Kfl.Names V.Kfl.JPath V.Kfl.KflOps.
@@ -65,8 +65,8 @@ Section Eval.
   Definition str_helper (f : bytes -> bytes -> bool) (args : list val) (st : jv) : hres :=
     if (length args <? 3)%nat then Ok (helper_obj args, vfalse, st)
     else
-      let* a1 := arg args 1 333 in
-      let* a2 := arg args 2 333 in
+      let* a1 := arg args 1 395 in
+      let* a2 := arg args 2 395 in
       Ok (ORef, vbool (f (string_operand a1) (string_operand a2)), st).
 
   Definition h_startsWith := str_helper has_prefix.
@@ -78,7 +78,7 @@ Section Eval.
   Definition h_datetime (args : list val) (st : jv) : hres :=
     if (length args <? 3)%nat then Ok (helper_obj args, vfalse, st)
     else
-      let* a2 := arg args 2 361 in
+      let* a2 := arg args 2 417 in
       match parse_time (string_operand a2) with
       | None => Ok (ORef, vfalse, st)
       | Some ns => Ok (ORef, VJ (JInt (ms_of_ns ns)), st)
@@ -94,10 +94,10 @@ Section Eval.
   Definition h_json (args : list val) (st : jv) : hres :=
     if (length args <? 3)%nat then Ok (helper_obj args, vfalse, st)
     else
-      let* a2 := arg args 2 384 in
+      let* a2 := arg args 2 437 in
       match a2 with
       | VPath p _ =>
-          let* a1 := arg args 1 388 in
+          let* a1 := arg args 1 441 in
           match parse_json (unb64 (string_operand a1)) with
           | None => Ok (ORef, vfalse, st)
           | Some doc =>
@@ -113,10 +113,10 @@ Section Eval.
   Definition h_xml (args : list val) (st : jv) : hres :=
     if (length args <? 3)%nat then Ok (helper_obj args, vfalse, st)
     else
-      let* a2 := arg args 2 416 in
+      let* a2 := arg args 2 469 in
       match a2 with
       | VPath _ pstr =>
-          let* a1 := arg args 1 420 in
+          let* a1 := arg args 1 473 in
           match xml_first (unb64 (string_operand a1)) pstr with
           | XStr s => Ok (ORef, VJ (JStr s), st)
           | XMap (Some s) => Ok (ORef, VJ (JStr s), st)
@@ -133,7 +133,7 @@ Section Eval.
   Definition h_time (args : list val) (st : jv) : hres :=
     if (length args <? 3)%nat then Ok (helper_obj args, vfalse, st)
     else
-      let* a2 := arg args 2 600 in
+      let* a2 := arg args 2 655 in
       match a2 with
       | VTime ns => Ok (ORef, VJ (JInt (ms_of_ns ns)), st)
       | _ => Ok (ORef, vfalse, st)
@@ -207,7 +207,7 @@ Section Eval.
                     | (EvVal nx o2, st2) =>
                         match logical_op op with
                         | Some f => Ok (EvVal (vbool (f unar nx)) o2, st2)
-                        | None => Panic 880
+                        | None => Panic 886
                         end
                     end
                 end
@@ -231,7 +231,7 @@ Section Eval.
                 | (EvVal nx o2, st2) =>
                     match equality_op parse_float re_match op with
                     | Some f => Ok (EvVal (vbool (f comp nx)) o2, st2)
-                    | None => Panic 847
+                    | None => Panic 853
                     end
                 end
             end
@@ -254,7 +254,7 @@ Section Eval.
                 | (EvVal nx o2, st2) =>
                     match comparison_op parse_float op with
                     | Some f => Ok (EvVal (vbool (f logic nx)) o2, st2)
-                    | None => Panic 824
+                    | None => Panic 830
                     end
                 end
             end
@@ -363,7 +363,7 @@ Section Eval.
                      | (EvVal v _, st1) => Ok (v, st1)
                      | (EvCollapse _, st1) => Ok (vfalse, st1)      (* unreachable: eval_expr never collapses *)
                      end
-                 | ExNone => Panic 895                               (* expr.Logical on a nil *Expression *)
+                 | ExNone => Panic 692                               (* expr.Logical on a nil *Expression *)
                  end
         end
     end.
